@@ -82,7 +82,7 @@ LEVEL_TEXT = ("Coq theorems, for all rule sets (any number of rules, names, tran
               "wire_vary_advertised for what SendKind::send passes to the connection: for every history, every sanitize verdict and every range, each "
               "response with a non-empty body — the reply, a range cut out of it, or the 416 page that replaces it — carries vary: accept-encoding, "
               "range, <rule headers>, given Package extensions that leave vary alone; send_keeps_vary (send without replacement never changes vary); "
-              "wire_416_without_vary_v0_refuted: before the repair of send (fix f31d94d) the 416 page had no vary (fixture history reproduced on the "
+              "wire_416_without_vary_v0_refuted: before the repair of send (fix 21f0154) the 416 page had no vary (fixture history reproduced on the "
               "code + for every page); stale_position_safe for the repaired handle_vary_missing (second half of a request against any "
               "invariant-satisfying cache) with stale_position_v0_refuted for the code before that repair; If-Modified-Since: "
               "not_modified_before_variant_lookup (the 304 depends on the entry's date only), not_modified_only_for_stored_variant_refuted (a tuple never "
